@@ -237,6 +237,11 @@ def run_job(job):
     finally:
         sys.argv = old_argv
     res["wall_s"] = round(time.time() - t0, 3)
+    try:
+        import resource
+        res["maxrss_kb"] = int(resource.getrusage(resource.RUSAGE_SELF).ru_maxrss)      # peak resident set of this (forked, per-job) process
+    except Exception:  # noqa
+        res["maxrss_kb"] = -1
     res["console"] = console.getvalue()[-20000:]
     res["stderr"] = errs.getvalue()[-8000:]
     ws = wsarg
